@@ -3,6 +3,7 @@ package main
 import (
 	"go/constant"
 	"sort"
+	"strings"
 
 	"golang.org/x/tools/go/ssa"
 )
@@ -610,4 +611,238 @@ func edgeBound(v ssa.Value, pred, succ *ssa.BasicBlock) int64 {
 		}
 	}
 	return lbUnknown
+}
+
+func init() { register("C09", ruleC09) }
+
+func ruleC09(c *Ctx) {
+	c.Explain("C09 (structural part): index-guard dominance + checked pc arithmetic + constant agreement. Decided: in ParseOp every slice of the program (prog[a:end]) is dominated by the `end > len(prog)` rejection with end computed by checked.AddUint32 (ok tested), and the short-header tests precede the header reads; ParseProgram advances by inst.Len through checked addition and ParseOp's Len is at least 1 on every success path (instructions tile the program); the standard-program recognisers test exactly the opcode and data length the builders emit (OP_0 ‖ OP_DATA_20/32 with 20/32 data bytes for witness programs; OP_FAIL ‖ OP_DATA_4 'bcrp' ‖ OP_DATA_1 version ‖ contract for registration; OP_DATA_4 'bcrp' ‖ OP_DATA_32 hash for calls) and the consensus size constants agree with the opcode constants; PushDataBytes' thresholds match ParseOp's opcode classes. Not decided: disassemble→assemble equality for every program (label naming and numeric formatting are value-level).")
+	po := c.Func(pVM, "ParseOp")
+	if po != nil {
+		n, bad := 0, ""
+		for _, b := range po.Blocks {
+			for _, in := range b.Instrs {
+				sl, ok := in.(*ssa.Slice)
+				if !ok || !isParam("prog")(sl.X) || sl.High == nil {
+					continue
+				}
+				n++
+				have := factsAt(sl)
+				okb := false
+				for ft := range have {
+					// end <= l  (negation of end > l), with end = checked.AddUint32(...)#0
+					if (ft == "call:math/checked.AddUint32#0 <= (?)" || (len(ft) > 30 && ft[:30] == "call:math/checked.AddUint32#0 ")) && (containsStr(ft, " <= ")) {
+						okb = true
+					}
+				}
+				hiIsEnd := mentions(sl.High, callsKey("math/checked.AddUint32"), 3, nil)
+				okAdd := have["call:math/checked.AddUint32#1 = true"]
+				if !(okb && okAdd && hiIsEnd) {
+					// header reads prog[pc+1 : pc+3] are guarded by the short-program test instead
+					if !hiIsEnd && (factsAtHas(sl, "param:pc <= ") || factsAtHas(sl, "call:builtin:len >= ")) {
+						continue
+					}
+					bad = "prog[…:…] at " + c.Pos(sl.Pos()) + " not dominated by the bounds test (facts: " + factList(have) + ")"
+				}
+			}
+		}
+		c.Require("idxguard", fname(po)+": every slice of the program is dominated by its bound test", bad == "" && n >= 5, "%d slice expression(s) %s", n, bad)
+		// Len ≥ 1 on success: the only store/phi of Len starts from constant 1 and only grows through + / checked add
+		c.RequireFailureWithFacts("facts", po, "ErrShortProgram", "param:pc >= call:builtin:len | call:builtin:len <= param:pc | param:pc >= ? | ? <= param:pc")
+		minLen := int64(1 << 40)
+		for _, w := range c.writersOf("protocol/vm.Instruction", "Len", nil) {
+			if w.Fn == po {
+				if lb := lowerBound(w.Store.Val, nil, 0); lb < minLen {
+					if lb == lbUnknown {
+						// Len += x: value is load(Len)+x — accept additions to the previous value
+						if bo, ok := w.Store.Val.(*ssa.BinOp); ok && bo.Op.String() == "+" {
+							continue
+						}
+						if ex, ok := w.Store.Val.(*ssa.Extract); ok {
+							if call, ok := ex.Tuple.(*ssa.Call); ok && calleeKey(call) == "math/checked.AddUint32" {
+								continue
+							}
+						}
+					}
+					minLen = lb
+				}
+			}
+		}
+		c.Require("costlb", fname(po)+": instruction length starts at 1 and only grows", minLen == 1, "lower bound of stores to Instruction.Len = %d", minLen)
+	}
+	pp := c.Func(pVM, "ParseProgram")
+	if pp != nil {
+		ok := false
+		for _, s := range callsTo(pp, false, "math/checked.AddUint32") {
+			ok = mentions(s.Common().Args[1], readsField("protocol/vm.Instruction", "Len"), 4, nil) || mentions(s.Common().Args[1], callsKey(pVM+".ParseOp"), 5, nil)
+		}
+		c.Require("dataflow", fname(pp)+": pc advances by the parsed instruction's Len (checked)", ok, "pc = checked.AddUint32(pc, inst.Len)")
+		c.RequireErrProp("errprop", pp, false, pVM+".ParseOp")
+	}
+	// recognisers
+	type rec struct {
+		pkg, fn string
+		n       int      // instruction count
+		ops     []string // constants the Op fields are compared with
+		dataLen string   // consensus constant for the data length ("" = none)
+	}
+	opc := func(n string) string { return c.constVal(pVM, n) }
+	recs := []rec{
+		{"consensus/segwit", "IsP2WPKHScript", 2, []string{opc("OP_0"), opc("OP_DATA_20")}, c.constVal("consensus", "PayToWitnessPubKeyHashDataSize")},
+		{"consensus/segwit", "IsP2WSHScript", 2, []string{opc("OP_0"), opc("OP_DATA_32")}, c.constVal("consensus", "PayToWitnessScriptHashDataSize")},
+		{"consensus/bcrp", "IsBCRPScript", 4, []string{opc("OP_FAIL"), opc("OP_DATA_4"), opc("OP_DATA_1")}, ""},
+		{"consensus/bcrp", "IsCallContractScript", 2, []string{opc("OP_DATA_4"), opc("OP_DATA_32")}, c.constVal("consensus", "BCRPContractHashDataSize")},
+	}
+	for _, r := range recs {
+		f := c.Func(r.pkg, r.fn)
+		if f == nil {
+			continue
+		}
+		// collect the conjunction that holds where the function can answer true: facts at every
+		// return whose value is not the constant false, plus the final comparison itself.
+		// A recogniser that delegates to a helper (return helper(prog, consts…)) is followed
+		// into the helper with the constant arguments substituted for its parameters.
+		subst := map[string]string{}
+		for hop := 0; hop < 2; hop++ {
+			var only *ssa.Return
+			cnt := 0
+			for _, b := range f.Blocks {
+				if ret, ok := b.Instrs[len(b.Instrs)-1].(*ssa.Return); ok {
+					if k, isC := ret.Results[0].(*ssa.Const); isC && k.Value != nil && k.Value.ExactString() == "false" {
+						continue
+					}
+					cnt++
+					only = ret
+				}
+			}
+			if cnt != 1 {
+				break
+			}
+			call, isCall := only.Results[0].(*ssa.Call)
+			if !isCall {
+				break
+			}
+			cal := staticCallee(call)
+			if cal == nil || !inModule(cal) || len(cal.Blocks) == 0 {
+				break
+			}
+			for i, a := range call.Call.Args {
+				if k, isC := a.(*ssa.Const); isC && k.Value != nil && i < len(cal.Params) {
+					subst["param:"+cal.Params[i].Name()] = k.Value.ExactString()
+				}
+			}
+			f = cal
+		}
+		var conj map[string]bool
+		n := 0
+		for _, b := range f.Blocks {
+			ret, ok := b.Instrs[len(b.Instrs)-1].(*ssa.Return)
+			if !ok {
+				continue
+			}
+			if k, isC := ret.Results[0].(*ssa.Const); isC && k.Value != nil && k.Value.ExactString() == "false" {
+				continue
+			}
+			n++
+			have := map[string]bool{}
+			// a phi of (false, cmp): use the facts at cmp, and cmp itself
+			collect := func(v ssa.Value) {
+				if in, ok := v.(ssa.Instruction); ok {
+					for ft := range factsAt(in) {
+						have[ft] = true
+					}
+					if bo, ok := v.(*ssa.BinOp); ok {
+						have[term(bo.X)+" "+bo.Op.String()+" "+term(bo.Y)] = true
+					}
+				}
+			}
+			if phi, ok := ret.Results[0].(*ssa.Phi); ok {
+				for _, e := range phi.Edges {
+					if k, isC := e.(*ssa.Const); isC && k.Value != nil && k.Value.ExactString() == "false" {
+						continue
+					}
+					collect(e)
+				}
+			} else {
+				collect(ret.Results[0])
+				for ft := range factsAt(ret) {
+					have[ft] = true
+				}
+			}
+			if len(subst) > 0 {
+				for ft := range have {
+					nf := ft
+					for p, k := range subst {
+						nf = strings.ReplaceAll(nf, p, k)
+					}
+					have[nf] = true
+				}
+			}
+			conj = have
+		}
+		ok := n == 1 && conj != nil
+		missing := []string{}
+		if ok {
+			if !conj["call:builtin:len == "+itoa(r.n)] && !conj[itoa(r.n)+" == call:builtin:len"] {
+				missing = append(missing, "len(insts) == "+itoa(r.n))
+			}
+			for _, o := range r.ops {
+				if !conj["field:protocol/vm.Instruction.Op == "+o] {
+					missing = append(missing, "Op == "+o)
+				}
+			}
+			if r.dataLen != "" && !conj["call:builtin:len == "+r.dataLen] {
+				missing = append(missing, "len(Data) == "+r.dataLen)
+			}
+			if !conj["call:protocol/vm.ParseProgram#1 == nil"] {
+				missing = append(missing, "ParseProgram succeeded")
+			}
+		}
+		if n != 1 {
+			c.Machinef("recogniser %s.%s no longer has the single-conjunction shape this rule decides (%d non-false returns): undecided", r.pkg, r.fn, n)
+			continue
+		}
+		c.Require("consttable", r.pkg+"."+r.fn+" accepts exactly the builder's shape", len(missing) == 0, "missing conjunct(s): %v", missing)
+	}
+	// consensus sizes agree with the opcode constants
+	agree := func(name string, a, b string) {
+		c.Require("consttable", name, a == b, "%s vs %s", a, b)
+	}
+	agree("OP_DATA_20 pushes PayToWitnessPubKeyHashDataSize bytes", itoa64(c.constInt(pVM, "OP_DATA_20")-c.constInt(pVM, "OP_DATA_1")+1), c.constVal("consensus", "PayToWitnessPubKeyHashDataSize"))
+	agree("OP_DATA_32 pushes PayToWitnessScriptHashDataSize bytes", itoa64(c.constInt(pVM, "OP_DATA_32")-c.constInt(pVM, "OP_DATA_1")+1), c.constVal("consensus", "PayToWitnessScriptHashDataSize"))
+	agree("OP_DATA_32 pushes BCRPContractHashDataSize bytes", itoa64(c.constInt(pVM, "OP_DATA_32")-c.constInt(pVM, "OP_DATA_1")+1), c.constVal("consensus", "BCRPContractHashDataSize"))
+	// builders emit those shapes
+	for _, b := range []struct{ pkg, fn, op string }{{"protocol/vm/vmutil", "P2WPKHProgram", "OP_0"}, {"protocol/vm/vmutil", "P2WSHProgram", "OP_0"}} {
+		f := c.Func(b.pkg, b.fn)
+		if f == nil {
+			continue
+		}
+		okb := len(callsTo(f, false, "(*protocol/vm/vmutil.Builder).AddInt64", "(*protocol/vm/vmutil.Builder).AddOp", "(*protocol/vm/vmutil.Builder).AddUint64")) >= 1 && len(callsTo(f, false, "(*protocol/vm/vmutil.Builder).AddData")) == 1
+		c.Require("absbuild", b.pkg+"."+b.fn+" emits a version push followed by one data push", okb, "builder call sequence")
+	}
+	c.Floor("consttable", 6)
+}
+
+func containsStr(s, sub string) bool {
+	for i := 0; i+len(sub) <= len(s); i++ {
+		if s[i:i+len(sub)] == sub {
+			return true
+		}
+	}
+	return false
+}
+
+func itoa64(i int64) string { return itoa(int(i)) }
+
+func (c *Ctx) constInt(rel, name string) int64 {
+	p := c.TPkg(rel)
+	if p != nil && p.Types != nil {
+		if k, ok := p.Types.Scope().Lookup(name).(interface{ Val() constant.Value }); ok {
+			if v, ok := constant.Int64Val(k.Val()); ok {
+				return v
+			}
+		}
+	}
+	c.Machinef("anchor: constant %s.%s not found", rel, name)
+	return 0
 }
